@@ -218,6 +218,7 @@ func init() {
 		Not: "That each value is converted correctly (field by field, byte for byte) and that API→native→API is the identity are value-level and not decided.",
 		Run: func(c *Ctx) {
 			c.ruleRatchets("C18")
+			c.ruleFlagRecomposition("E3.flag-recomposition", []string{"pkg/apiutil", "pkg/server", "pkg/config/oc"}, 2)
 			c.ruleAPIMarshalTotal()
 			c.ruleAPIUnmarshalTotal()
 			c.ruleDecodeProduces("E4.decode-produces", []string{"pkg/packet/bgp"}, 150)
